@@ -243,3 +243,8 @@ Definition ystep (st : ybuf) (o : xop) : ybuf * nat :=
       (mk_ybuf x' (y_dirty st) (if bump then y_sseq st + 1 else y_sseq st), r)
   | _ => let '(x', r) := xstep x o in (mk_ybuf x' (y_dirty st) (y_sseq st), r)
   end.
+
+(* BufferSnapshotBatchGetter.BatchGet (the second copy of the merge loop in batch_getter.go) over the staging-blind
+   view of the buffer *)
+Definition x_snap_batch_get (snap : list kv) (st : xbuf) (keys : list key) : list key * list kv :=
+  buffer_batch_get snap (x_snap_map st) keys.
